@@ -24,7 +24,8 @@ import (
 //
 //   - leaves: the leaf's own static type (its cadence type converted to a sema
 //     type) must be a subtype of the expected type by sema.IsSubType and must
-//     be importable by sema's own IsImportable;
+//     be importable by sema's own IsImportable; capability and function values
+//     are never importable;
 //   - optionals / arrays / dictionaries: recursively against the declared
 //     element / key / value type of the expected type (constant-sized arrays:
 //     the size too); when the expected type is not of that shape (AnyStruct,
@@ -283,6 +284,13 @@ func (o *oracle) natural(v cadence.Value, declared bool, depth int) (sema.Type, 
 		defer func() { _ = recover() }()
 		t = v.Type()
 	}()
+	switch v.(type) {
+	case cadence.Capability, cadence.Function:
+		// Importability of *values* (what the sentence's "a value that is importable" is about): capabilities
+		// and functions are never importable - an argument must not be able to forge authority - although
+		// `Capability<…>` is an admissible parameter type for sema.
+		return nil, bad("not-importable", "%s value", cdcval.Kind(v))
+	}
 	st, err := o.semaOf(t)
 	if err != nil {
 		return nil, bad("?unresolvable-leaf-type", "%s: %v", cdcval.Kind(v), err)
